@@ -591,7 +591,14 @@ type wop struct {
 }
 
 func genWrite(rng *mon.Rng) (wop, []bool) {
-	switch rng.Intn(11) {
+	switch rng.Intn(13) {
+	case 11:
+		// a nested bit string that its owner has partly read already: its value is still all of its bits
+		bits := rng.Bits(rng.Range(1, 90))
+		return wop{Op: "WriteBitString(partly-read)", Bits: rb.String(bits), N: rng.Range(1, len(bits))}, bits
+	case 12:
+		bits := rng.Bits(rng.Range(1, 90))
+		return wop{Op: "Append(partly-read)", Bits: rb.String(bits), N: rng.Intn(len(bits) + 1)}, bits
 	case 0:
 		b := rng.Bool()
 		return wop{Op: "WriteBit", N: b2i(b)}, []bool{b}
@@ -667,6 +674,8 @@ func applyWrite(t *target, o wop, bitsv []bool) (err error) {
 			return c.WriteLimUint(int(o.U), o.N)
 		case "WriteBitString", "WriteBitArray":
 			return c.WriteBitString(*bsOf(bitsv, len(bitsv)))
+		case "WriteBitString(partly-read)", "Append(partly-read)":
+			return c.WriteBitString(partlyRead(bitsv, o.N))
 		default:
 			return c.WriteBitString(nested(bitsv, o.N))
 		}
@@ -693,9 +702,30 @@ func applyWrite(t *target, o wop, bitsv []bool) (err error) {
 		return s.WriteBitString(*bsOf(bitsv, len(bitsv)))
 	case "WriteBitArray":
 		return s.WriteBitArray(bitsv)
+	case "WriteBitString(partly-read)":
+		return s.WriteBitString(partlyRead(bitsv, o.N))
+	case "Append(partly-read)":
+		if len(bitsv) > s.BitsAvailableForWrite() {
+			// Append would grow the target; the capacity rule is judged through WriteBitString
+			return s.WriteBitString(partlyRead(bitsv, o.N))
+		}
+		s.Append(partlyRead(bitsv, o.N))
+		return nil
 	default:
 		return s.WriteBitString(nested(bitsv, o.N))
 	}
+}
+
+// partlyRead returns a BitString holding bitsv whose read cursor stands at k
+// (its owner has consumed a prefix, the way a decoder peels a tag off).
+func partlyRead(bitsv []bool, k int) boc.BitString {
+	s := bsOf(bitsv, len(bitsv))
+	for i := 0; i < k; i++ {
+		if _, err := s.ReadBit(); err != nil {
+			R.HarnessError("partlyRead fixture: %v", err)
+		}
+	}
+	return *s
 }
 
 // nested returns a BitString holding bitsv that was produced by ReadBits at
